@@ -130,6 +130,11 @@ func (l *memLogger) log(lv, msg string) {
 			}
 		}
 	}
+	if lv == "W" && msg == "Attempted to delete non-existent relay item." {
+		// two ways of ending one relayed call met (e.g. the caller's cancel frame and the
+		// callee's last frame): the second finisher found the item gone
+		l.w.probe("relay.two-finishers-met")
+	}
 	if lv != "I" && l.msgs != nil {
 		(*l.msgs)[msg]++
 	}
